@@ -287,5 +287,124 @@ theorem isSubDTop_sound (hU : ClosedU U)
     (s t : Ty) (us : U s) (ut : U t) (h : isSubDTop B s t = true) : Asg U s t :=
   isSubD_sound hU hS B hB _ s t us ut h
 
+/-! ## `Asg` extends the declarative subtype relation of C06 -/
+
+theorem SubT.toAsg_all {s t : Ty} (h : SubT U s t) : Asg U s t := by
+  refine SubT.rec (U := U)
+    (motive_1 := fun s t _ => Asg U s t)
+    (motive_2 := fun tps as bs _ => ∀ m, AsgArgs U m tps as bs)
+    (motive_3 := fun tp a b _ => ∀ m, AsgArg U m tp a b)
+    ?_ ?_ ?_ ?_ ?_ ?_ ?_ ?_ ?_ ?_ ?_ ?_ ?_ ?_ ?_ ?_ ?_ ?_ ?_ ?_ ?_ h
+  · intro s t h; exact Asg.refl h
+  · intro s t h; exact Asg.reflR h
+  · intro s u t hu _ _ ih1 ih2; exact Asg.trans hu ih1 ih2
+  · intro t; exact Asg.bot
+  · intro c nm p ss t; exact Asg.botBuiltin
+  · intro s u h; exact Asg.nominal h
+  · intro nm v bd; exact Asg.tvar
+  · intro sb ob _ ih; exact Asg.projOut ih
+  · intro nm con as ss nm' con' bs ss' hc _ ih; exact Asg.args hc (ih _)
+  · intro tps as bs h m; exact AsgArgs.stop h
+  · intro tp tps a as b bs _ _ ih1 ih2 m; exact AsgArgs.cons (ih1 m) (ih2 m)
+  · intro tp a b h m; exact AsgArg.same h
+  · intro tp a b h1 h2 h3 _ ih m; exact AsgArg.declCo h1 h2 h3 ih
+  · intro tp a b h1 h2 h3 _ ih m; exact AsgArg.declContra h1 h2 h3 ih
+  · intro tp a bd h1 _ ih m; exact AsgArg.useOut h1 ih
+  · intro tp a bd h1 _ ih m; exact AsgArg.useIn h1 ih
+  · intro tp bd bd' _ ih m; exact AsgArg.outOut ih
+  · intro tp bd bd' _ ih m; exact AsgArg.inIn ih
+  · intro tp a v h m; exact AsgArg.star h
+  · intro tp bd b h1 h2 _ ih m; exact AsgArg.projDeclCo h1 h2 ih
+  · intro tp bd b h1 h2 _ ih m; exact AsgArg.projDeclContra h1 h2 ih
+
+/-- every declarative subtype judgement of C06 is an assignability judgement -/
+theorem SubT.toAsg {s t : Ty} (h : SubT U s t) : Asg U s t := SubT.toAsg_all h
+
+theorem Cont.toAsgArg {tp a b : Ty} (h : Cont U tp a b) (m : TMap) : AsgArg U m tp a b := by
+  cases h with
+  | same h => exact AsgArg.same h
+  | declCo h1 h2 h3 h4 => exact AsgArg.declCo h1 h2 h3 h4.toAsg
+  | declContra h1 h2 h3 h4 => exact AsgArg.declContra h1 h2 h3 h4.toAsg
+  | useOut h1 h2 => exact AsgArg.useOut h1 h2.toAsg
+  | useIn h1 h2 => exact AsgArg.useIn h1 h2.toAsg
+  | outOut h1 => exact AsgArg.outOut h1.toAsg
+  | inIn h1 => exact AsgArg.inIn h1.toAsg
+  | star h1 => exact AsgArg.star h1
+  | projDeclCo h1 h2 h3 => exact AsgArg.projDeclCo h1 h2 h3.toAsg
+  | projDeclContra h1 h2 h3 => exact AsgArg.projDeclContra h1 h2 h3.toAsg
+
+theorem ContL.toAsgArgs {tps as bs : List Ty} (h : ContL U tps as bs) (m : TMap) :
+    AsgArgs U m tps as bs := by
+  induction tps generalizing as bs with
+  | nil => exact AsgArgs.stop (Or.inl rfl)
+  | cons tp tps ih =>
+    cases h with
+    | stop h => exact AsgArgs.stop h
+    | cons h1 h2 => exact AsgArgs.cons (h1.toAsgArg m) (ih h2)
+
+/-! ## the decider answers `true`: the hypotheses are satisfiable -/
+
+section Examples
+
+/-- the top built-in, a primitive, its box (stores a supertype), a generic class `C<T : A>` -/
+private def exObj : Ty := builtin "c.Object" "Object" false false []
+private def exNum : Ty := builtin "c.Number" "Number" false false [exObj]
+private def exInt : Ty := builtin "c.Integer" "int" false true []
+private def exBox : Ty := builtin "c.Integer" "Integer" false false [exNum]
+private def exA : Ty := simple "A" []
+private def exA1 : Ty := simple "A1" [exA]
+private def exT : Ty := tparam "T" 0 (some exA)
+private def exC : Ty := tcon "c.TC" "C" [exT] []
+private def exCof (a : Ty) : Ty := param "C" exC [a] []
+
+/-- a classifier is below the top type -/
+example : isSubDTop [] exA exObj = true := by decide
+/-- a stored supertype -/
+example : isSubDTop [] exA1 exA = true := by decide
+/-- a primitive is below the supertype stored in its box -/
+example : isSubDTop [exBox] exInt exNum = true := by decide
+/-- … and not without the table of boxes -/
+example : isSubDTop [] exInt exNum = false := by decide
+/-- a type variable is below what its bound is below -/
+example : isSubDTop [] (tparam "X" 0 (some exA1)) exA = true := by decide
+/-- star containment: `C<A1> ≤ C<*>` -/
+example : isSubDTop [] (exCof exA1) (exCof (wild 0 none)) = true := by decide
+/-- use-site covariance: `C<A1> ≤ C<out A>` -/
+example : isSubDTop [] (exCof exA1) (exCof (wild 1 (some exA))) = true := by decide
+/-- the star rule: `C<*> ≤ C<out A>` because `T : A` -/
+example : isSubDTop [] (exCof (wild 0 none)) (exCof (wild 1 (some exA))) = true := by decide
+/-- … and `C<*>` is not below `C<out A1>` -/
+example : isSubDTop [] (exCof (wild 0 none)) (exCof (wild 1 (some exA1))) = false := by decide
+/-- everything is contained in `out Top` -/
+example : isSubDTop [] (exCof (wild 2 (some exA))) (exCof (wild 1 (some exObj))) = true := by decide
+
+/-- the hypotheses of `isSubD_sound` are met: the full universe is closed under everything, a
+    finite one is `ClosedU` (`closedU_univ`) -/
+example : Asg (fun _ => True) exInt exNum :=
+  isSubDTop_sound (fun _ _ _ _ => trivial) (fun _ _ _ _ => trivial) [exBox] (fun _ _ => trivial)
+    exInt exNum trivial trivial (by decide)
+
+/-- a *finite* universe with `BoundsU`: the sub-terms of `C<*>` and `C<out A>` -/
+private def exU : Ty → Prop := univ [exCof (wild 0 none), exCof (wild 1 (some exA))]
+
+private theorem exU_A : exU exA := by
+  simp [exU, univ, subtermsL, subterms, subtermsO, exCof, exC, exT, exA]
+
+private theorem exU_bounds : BoundsU exU := by
+  intro nm con as ss h tnm v dbd hmem
+  simp [exU, univ, subtermsL, subterms, subtermsO, exCof, exC, exT, exA] at h
+  rcases h with ⟨rfl, rfl, rfl, rfl⟩ | ⟨rfl, rfl, rfl, rfl⟩ <;>
+  · simp only [conParams, List.mem_singleton, tparam.injEq, Option.some.injEq] at hmem
+    obtain ⟨rfl, rfl, rfl⟩ := hmem
+    exact exU_A
+
+/-- the hypotheses of `isSubDTop_sound'` are met by a finite universe, on the star rule -/
+example : Asg exU (exCof (wild 0 none)) (exCof (wild 1 (some exA))) :=
+  isSubDTop_sound' (closedU_univ _) exU_bounds [] (fun _ h => nomatch h) _ _
+    (univ_mem List.mem_cons_self) (univ_mem (List.mem_cons_of_mem _ List.mem_cons_self))
+    (by decide)
+
+end Examples
+
 end Ty
 end Heph
